@@ -34,7 +34,8 @@ def scenarios(prop, quick, seed):
         pol = ["random", "pct", "free", "pct"][j % 4]
         base = {"writers": 2 + j % 3, "ops": 3 + j % 4, "keys": 1 + j % 3, "wt": [], "setmax": [], "syncexec": 0,
                 "policy": pol, "seed": seed * 100000 + j, "points": "pub" if j % 5 else "all", "expiry": (j // 2) % 2,
-                "invall": [0, 0, 1, 0, 0, 2][j % 6], "reads": (j // 3) % 2, "stale": 1 if (j // 4) % 3 == 0 else 0}
+                "invall": [0, 0, 1, 0, 0, 2][j % 6], "reads": (j // 3) % 2, "stale": 1 if (j // 4) % 3 == 0 else 0,
+                "smallbuf": 1 if (j // 5) % (2 if prop == "C04" else 4) == 1 else 0}
         if prop == "C04":
             kind = j % 3
             if kind == 0:
@@ -49,6 +50,8 @@ def scenarios(prop, quick, seed):
             sc = dict(base, size=["count", "none", "weight", "none"][j % 4], max=1 + j % 3, wt=[1, 2, 0, 1], syncexec=(j // 4) % 2)
             if sc["size"] == "none" and j % 8 == 1:
                 sc["expiry"] = 0       # no maintenance at all: the fast notification path
+        if sc["smallbuf"]:
+            sc["writers"], sc["ops"], sc["keys"] = 3 + j % 2, 8 + j % 4, 3 + j % 3
         if sc["stale"]:
             # room for several entries in one queue, so that a replaced node has neighbours
             sc["keys"], sc["max"] = 2 + j % 2, max(sc["max"], 3 + j % 3)
